@@ -494,6 +494,15 @@ fn check_linear(kind: &str, n: usize, x: &[f64], y: &[f64], a: f64, b: f64) -> O
             (None, None, None) => {}, other => return Some(format!("step {t}: readiness differs between streams {other:?}")),
         }
     }
+    // the low-pass members reproduce a constant from their first output - also when chained on a (linear, constant-preserving) window view
+    // that is silent at first (the seeding of the recursion must use the first DELIVERED value)
+    if matches!(kind, "sma" | "ema" | "alma" | "laguerre_filter") && !x.is_empty() {
+        let c = if x[0] == 0.0 { 1.5 } else { x[0] };
+        for inner in ["echo", "sma"] {
+            let mut v = make(kind, make(inner, echo(), n), n);
+            for t in 0..(4 * n + 8) { v.update(c); if let Some(o) = v.last() { if (o - c).abs() > 1e-9 * (1.0 + c.abs()) { return Some(format!("step {t}: constant stream {c} over {inner} is reported as {o}")); } } }
+        }
+    }
     None
 }
 fn check_invariance(kind: &str, n: usize, h: &[f64], a: f64, b: f64) -> Option<String> {
@@ -582,14 +591,19 @@ fn check_determinism(kind: &str, inner: &str, n: usize, h: &[f64]) -> Option<Str
 }
 fn check_memory(kind: &str, n: usize) -> Option<String> {
     let n = n.max(min_n(kind));
-    let mut v = make(kind, make("sma", echo(), n), n);
-    let mut r = Rng(0x9E3779B97F4A7C15 ^ n as u64);
-    for _ in 0..(6 * n + 50) { v.update(r.pick(&[1.0, 2.0, 0.5, 3.0, 1.5])); }
-    let base = LIVE.load(Ordering::Relaxed);
-    let mut peak = base;
-    for _ in 0..20000 { v.update(r.pick(&[1.0, 2.0, 0.5, 3.0, 1.5])); peak = peak.max(LIVE.load(Ordering::Relaxed)); }
-    let end = LIVE.load(Ordering::Relaxed);
-    if end - base > 4096 + 64 * n as isize { return Some(format!("heap grew by {} bytes over 20000 updates after warm-up (window {n})", end - base)); }
+    // three stream families: generic positive values over a chained Sma; and (outside the positive-only views) streams over Echo with
+    // exact zeros, ties and long constant stretches - early-return paths (zero base, flat window) must not skip the trimming of a buffer
+    let fams: &[(&str, &[f64])] = if positive_only(kind) { &[("sma", &[1.0, 2.0, 0.5, 3.0, 1.5])] }
+        else { &[("sma", &[1.0, 2.0, 0.5, 3.0, 1.5]), ("echo", &[0.0, 1.0, 0.0, -2.0, 1.0, 0.0, 0.5]), ("echo", &[1.5, 1.5, 1.5, 1.5, 1.5, 1.5, 0.0])] };
+    for (inner, vals) in fams {
+        let mut v = make(kind, make(inner, echo(), n), n);
+        let mut r = Rng(0x9E3779B97F4A7C15 ^ n as u64);
+        for _ in 0..(6 * n + 50) { v.update(r.pick(vals)); }
+        let base = LIVE.load(Ordering::Relaxed);
+        for _ in 0..20000 { v.update(r.pick(vals)); }
+        let end = LIVE.load(Ordering::Relaxed);
+        if end - base > 4096 + 64 * n as isize { return Some(format!("heap grew by {} bytes over 20000 updates after warm-up (window {n}, values {vals:?} over {inner})", end - base)); }
+    }
     None
 }
 
